@@ -281,13 +281,15 @@ func (w *World) Step(a Action) *StepRec {
 	switch {
 	case a.Kind == KEndBlock:
 		w.endBlock(rec, a)
+	case a.Kind == KRestart:
+		w.restart(rec)
 	case a.Kind == KTx:
 		w.runTx(rec, a.Msgs)
 	default:
 		w.runTx(rec, []Action{a})
 	}
 
-	if !rec.OK && a.Kind != KEndBlock {
+	if !rec.OK && a.Kind != KEndBlock && a.Kind != KRestart {
 		// the transaction left no trace: callbacks it made and module-service answers are void
 		w.cbs = w.cbs[:cbMark]
 		w.modOuts = w.modOuts[:modMark]
@@ -329,6 +331,47 @@ func (w *World) endBlock(rec *StepRec, a Action) {
 		d = 1
 	}
 	w.ctx = w.ctx.WithBlockHeight(w.Height() + 1).WithBlockTime(time.Unix(0, w.TimeNs()+d).UTC())
+}
+
+// restart models a chain restart from a zero-height export: escrow is paid out, the genesis is
+// exported and validated, the service store is wiped and re-created from the exported genesis
+// (bank state, parameters subspace and the keeper's registered callbacks / module services carry
+// over, as they do when the new chain starts with the same application binary).
+func (w *World) restart(rec *StepRec) {
+	cctx, write := w.ctx.CacheContext()
+	var err error
+	func() {
+		defer func() {
+			if r := recover(); r != nil {
+				rec.Panic = panicString(r)
+			}
+		}()
+		service.PrepForZeroHeightGenesis(cctx, w.k)
+		gs := service.ExportGenesis(cctx, w.k)
+		if err = types.ValidateGenesis(*gs); err != nil {
+			return
+		}
+		store := cctx.KVStore(w.app.GetKey(types.StoreKey))
+		var keys [][]byte
+		it := store.Iterator(nil, nil)
+		for ; it.Valid(); it.Next() {
+			keys = append(keys, append([]byte{}, it.Key()...))
+		}
+		it.Close()
+		for _, k := range keys {
+			store.Delete(k)
+		}
+		service.InitGenesis(cctx, w.k, *gs)
+	}()
+	if rec.Panic != "" {
+		return
+	}
+	if err != nil {
+		rec.Err = err.Error()
+		return
+	}
+	write()
+	rec.OK = true
 }
 
 // runTx runs the messages atomically: ValidateBasic on all, then the handlers in a nested cache
